@@ -94,3 +94,20 @@ class Verdict:
         if self.errors:
             return 2
         return 1 if self.violations else 0
+
+
+def jsonable(o):
+    """A projection is JSON by construction; a broken tree can put anything
+    into it (bytes where a namespace should be, ...).  Such values become
+    "?<repr>" tokens - no specification value equals them, so the step is
+    rejected instead of the machinery crashing."""
+    if isinstance(o, dict):
+        return {k if isinstance(k, str) else '?' + repr(k)[:40]: jsonable(v)
+                for k, v in o.items()}
+    if isinstance(o, (list, tuple)):
+        return [jsonable(x) for x in o]
+    if o is None or isinstance(o, (str, bool, int)):
+        return o
+    if isinstance(o, float):
+        return o if o == o and abs(o) != float('inf') else '?' + repr(o)
+    return '?' + repr(o)[:40]
